@@ -107,6 +107,7 @@ type enc struct {
 	storeOf     map[string]storeRec
 	inStore     bool
 	callBinds   map[string]bool // cells bound to the closure being called
+	lockLoops   []lockLoop
 }
 
 type EncOpts struct {
@@ -605,9 +606,9 @@ func (e *enc) birthAxiom(a string, v int) {
 	name := fmt.Sprintf("|%s@%d|", a, v)
 	switch srt {
 	case "(Array Ref Ref)":
-		e.assume(fmt.Sprintf("(forall ((r Ref)) (! (or (= (select %s r) 0) (< (birth (select %s r)) |G_now@%d|)) :pattern ((select %s r))))", name, name, cv, name))
+		e.assume(fmt.Sprintf("(forall ((r Ref)) (! (or (= (select %s r) 0) (>= (birth r) |G_now@%d|) (< (birth (select %s r)) |G_now@%d|)) :pattern ((select %s r))))", name, cv, name, cv, name))
 	case "(Array Ref Iface)":
-		e.assume(fmt.Sprintf("(forall ((r Ref)) (! (=> (is-IPtr (select %s r)) (< (birth (iptr (select %s r))) |G_now@%d|)) :pattern ((select %s r))))", name, name, cv, name))
+		e.assume(fmt.Sprintf("(forall ((r Ref)) (! (=> (and (is-IPtr (select %s r)) (< (birth r) |G_now@%d|)) (< (birth (iptr (select %s r))) |G_now@%d|)) :pattern ((select %s r))))", name, cv, name, cv, name))
 	}
 }
 
@@ -784,6 +785,12 @@ func (e *enc) allocatedIn(r, arr string, st hstate, at ...string) string {
 		v = so.prev
 	}
 	cv := e.clockOf[fmt.Sprintf("%s@%d", arr, v)] // 0 = entry clock for version 0
+	if len(at) == 0 {
+		return "true"
+	}
+	// objects born after the version came into being (allocated by callees that only write fresh
+	// memory) may hold anything
+	alts = append(alts, fmt.Sprintf("(>= (birth %s) |G_now@%d|)", at[0], cv))
 	alts = append(alts, fmt.Sprintf("(< (birth %s) |G_now@%d|)", r, cv))
 	return "(or " + strings.Join(alts, " ") + ")"
 }
